@@ -60,7 +60,14 @@ def compute_national_checksum(country_code: str, components: dict[Component, str
     if algo is None:
         return ""
 
-    return algo.compute([components[key] for key in algo.accepts])
+    try:
+        return algo.compute([components[key] for key in algo.accepts])
+    except exceptions.SchwiftyException:
+        raise
+    except (ValueError, LookupError) as e:
+        raise exceptions.InvalidStructure(
+            f"Invalid characters in the components for country {country_code!r}"
+        ) from e
 
 
 class BBAN(common.Base):
